@@ -12,6 +12,7 @@ import (
 	"math/rand"
 	"os"
 	"strconv"
+	"strings"
 
 	"verifharness/internal/gsim"
 )
@@ -169,9 +170,9 @@ func exec(c *gsim.Cluster, a []interface{}) *gsim.Step {
 	case "DoCompact":
 		return c.Compact(str(arg(1)), 1)
 	case "DoAddEndpoint":
-		return c.AddEndpoint(str(arg(1)), str(arg(2)))
+		return c.AddEndpoint(str(arg(1)), strings.TrimPrefix(str(arg(2)), "endpoint:"))
 	case "DoRemoveEndpoint":
-		return c.RemoveEndpoint(str(arg(1)), str(arg(2)))
+		return c.RemoveEndpoint(str(arg(1)), strings.TrimPrefix(str(arg(2)), "endpoint:"))
 	case "DoRound":
 		return c.Round(str(arg(1)), str(arg(2)), 0)
 	case "DoRecvDigest":
@@ -192,6 +193,15 @@ func exec(c *gsim.Cluster, a []interface{}) *gsim.Step {
 		return c.Expire(str(arg(1)), num(arg(2)))
 	case "DoCrash":
 		return c.Crash(str(arg(1)))
+	// OwnMap.tla labels
+	case "CallUpsert":
+		return c.Upsert(str(arg(1)), str(arg(2)), str(arg(3)))
+	case "CallDelete":
+		return c.Delete(str(arg(1)), str(arg(2)))
+	case "CallLeave":
+		return c.LeaveLocal(str(arg(1)))
+	case "CallCompact":
+		return c.Compact(str(arg(1)), num(arg(2)))
 	// raw calls (replay files and hand-written scenarios)
 	case "UpsertLocal":
 		return c.Upsert(str(arg(1)), str(arg(2)), str(arg(3)))
